@@ -293,6 +293,17 @@ def powi_big_cases(rng, tier, n):
             k = -k
         yield ("f.powi", [fenc(B, s, e, p, m), "k:" + hx(k)])
 
+def _smooth(s, B):
+    """every prime factor of |s| divides B (s = 1 included)"""
+    s = abs(s)
+    if s == 0:
+        return False
+    for q in (2, 3, 5):
+        if B % q == 0:
+            while s % q == 0:
+                s //= q
+    return s == 1
+
 def large_argument_cases(rng, tier):
     """exp / exp_m1 / powf whose argument reduction count is large: |x| from 1e3 to 1e12 (exp_m1 to 1e5) in
     every base at several precisions — the digits of floor(x / ln B) must be covered by the working precision
@@ -321,6 +332,12 @@ def large_argument_cases(rng, tier):
                     s, e = B + 1, 0 if p > 1 else 0
                 top = int(math.log(10.0 ** mexp) / math.log(B)) + 1
                 t, f = float_with_top(rng, B, p, top, rng.choice([1, 2, p]))
+                if f >= 0:
+                    # (round 5) an INTEGER exponent of 10^3..10^11 on a base all of whose prime factors divide B (8 in base
+                    # 16, 6 in base 36, B itself) gives an exactly representable power with millions of bits: deciding it costs
+                    # the model side > 10 min (`hang`); such exact powers are covered at moderate size by powf_cases
+                    while _smooth(s, B):
+                        s += 1
                 if ndigits(B, s) > p:
                     continue
                 yield ("f.powf", [fenc(B, s, e, p, m), fenc(B, t if rng.random() < 0.5 else -t, f, p, m)])
